@@ -196,8 +196,14 @@ func FuncBuilder(env *Zlisp, name string,
 	// minimal sanity check that we return the number of arguments
 	// on the stack that are declared
 	if len(body) == 0 {
-		for range retHash.KeyOrder {
-			gen.AddInstruction(PushInstr{expr: SexpNull})
+		// a declaration without a body returns nil for each declared result,
+		// packaged into one value exactly as (return nil ...) packages them.
+		zeros := make([]Sexp, len(retHash.KeyOrder))
+		for i := range zeros {
+			zeros[i] = SexpNull
+		}
+		if err = gen.GenerateReturn(zeros); err != nil {
+			return MissingFunction, err
 		}
 	}
 
